@@ -126,6 +126,16 @@ pub fn non_codes(rng: &mut Rng) -> Vec<String> {
             }
         }
     }
+    // every other string of two printable ASCII characters (digits, punctuation, mixed), except the case variants of the
+    // seven codes, which are tag-like and not judged
+    for a in 0x20u8..0x7f {
+        for b in 0x20u8..0x7f {
+            let c = format!("{}{}", char::from(a), char::from(b));
+            if !LANGS.contains(&c.to_lowercase().as_str()) && !(a.is_ascii_lowercase() && b.is_ascii_lowercase()) {
+                v.push(c);
+            }
+        }
+    }
     // near misses of the real codes: padded, truncated, doubled, with a control character (a different case or a
     // region / script subtag is tag-like and not judged, see the assumptions)
     for code in LANGS {
